@@ -41,6 +41,7 @@ def configs(tier, seed):
             out.append(dict(name="history %s R=%d L=%d" % (st, R, L), h="history", st=st, R=R, L=L))
     out.append(dict(name="reveal-guards", h="guards", st="A", R=4))
     out.append(dict(name="set_observed", h="setobs", st="A", R=4))
+    out.append(dict(name="set_observed on a screen constructed without observations", h="setobs", st="A", R=4, no_observations=True))
     out.append(dict(name="300 plates (ids past 255)", h="many", P=300, small=q))
     return out
 
@@ -252,11 +253,18 @@ def h_setobs(ctx, cfg):
     np = ctx.np
     rows = ROWS[cfg["st"]][:cfg["R"]]
     R = len(rows)
-    obs = [ctx.real("ob%d" % i) for i in range(R)]
-    s = concrete_screen(ctx, rows, observations=obs, mask=[False] * R)
+    ctx.f32_visible(True)  # a narrowing of the stored values on the way in would be visible
+    if cfg.get("no_observations"):
+        # a prospective screen: constructed without observations (all unobserved, placeholder values 0)
+        obs = [0.0] * R
+        s = concrete_screen(ctx, rows)
+        ctx.prove(not any(s.observation_mask.tolist()), "no observations given: everything unobserved")
+    else:
+        obs = [ctx.real("ob%d" % i) for i in range(R)]
+        s = concrete_screen(ctx, rows, observations=obs, mask=[False] * R)
     sel = [ctx.is_true(ctx.bool("sel%d" % i)) for i in range(R)]
     k = sum(sel)
-    new = [ctx.real("nv%d" % i) for i in range(k)]
+    new = [ctx.real_bits("nv%d" % i) for i in range(k)]
     s.set_observed(np.array(sel, dtype=bool), np.array(new, dtype=float))
     got_m, got_o = s.observation_mask.tolist(), s.observations.tolist()
     j = 0
